@@ -1,6 +1,7 @@
 package socks5
 
 import (
+	"bytes"
 	"context"
 	"net"
 
@@ -75,3 +76,13 @@ func vH_C12_serve_conn() {
 	vServeCase(10) // CONNECT / ASSOCIATE with an IPv4 destination
 	vServeCase(7)  // domain of length 0
 }
+
+// bytes.Buffer as used by Request.ReadFromSocks5 (io.TeeReader into a Buffer,
+// then Bytes()): a plain append-only byte slice per buffer.
+var vBufs = map[*bytes.Buffer][]byte{}
+
+func vStubBufWrite(b *bytes.Buffer, p []byte) (int, error) {
+	vBufs[b] = append(vBufs[b], p...)
+	return len(p), nil
+}
+func vStubBufBytes(b *bytes.Buffer) []byte { return vBufs[b] }
